@@ -70,11 +70,12 @@ class GetService(DPWSPortTypeBase):
                 state_containers = list({id(st): st for st in state_containers}.values())
                 self._logger.debug('_on_get_md_state requested Handles:{} found {} states', requested_handles,
                                    len(state_containers))
+            mdib_version_group = self._mdib.mdib_version_group
 
         factory = self._sdc_device.msg_factory
         response = data_model.msg_types.GetMdStateResponse()
         response.MdState.State.extend(state_containers)
-        response.set_mdib_version_group(self._mdib.mdib_version_group)
+        response.set_mdib_version_group(mdib_version_group)
         created_message = factory.mk_reply_soap_message(request_data, response)
         self._logger.debug('_on_get_md_state returns {}',
                            lambda: created_message.serialize())
